@@ -239,6 +239,26 @@ def gen_schema(rng, sw):
             name = f"U{next(counter)}"
             names.add(name)
             schema.append({"k": "uref", "name": name, "members": members})
+    if sw.get("ref_chain"):
+        # guaranteed reference chains: a referent that holds a reference itself, holders of both,
+        # and an array of references (deep duplication / aliasing across levels)
+        c = next(counter)
+        sc = rng.choice(idx_sc)
+        schema.append({"k": "struct", "name": f"L{c}", "fields": [["v", sc], ["w", rng.choice(idx_sc)]], "decl": "class"})
+        leaf = len(schema) - 1
+        schema.append({"k": "ref", "to": leaf})
+        rl = len(schema) - 1
+        schema.append({"k": "struct", "name": f"M{c}", "fields": [["a", sc], ["r", rl]], "decl": "class"})
+        mid = len(schema) - 1
+        schema.append({"k": "ref", "to": mid})
+        rm = len(schema) - 1
+        schema.append({"k": "struct", "name": f"T{c}", "fields": [["x", sc], ["m", rm], ["l", rl]], "decl": "class"})
+        if rng.random() < 0.5:
+            shape = [rng.choice([None, 2, 3])]
+            name = f"Arr{sugar_suffix(shape)}{type_name(schema, rm)}"
+            if name not in names:
+                names.add(name)
+                schema.append({"k": "array", "name": name, "item": rm, "shape": shape, "order": [0], "decl": "sugar", "order_decl": None})
     return schema
 
 
